@@ -4,7 +4,7 @@ HOOKS = {
     "guard": "verif",
     "enable": "go build -tags verif (the harness module in /verif/harness replaces the library by /repo/go and is always built with -tags verif)",
     "baseline_off_cmd": BASE_OFF,
-    "source_commits": ["98cebac", "2f1e4e7", "c83bfb0", "91bc1e3", "264b974", "d83c337", "edf016c", "93ac700", "d9dddd0", "e90eabd", "f010b6c", "21317de", "5be453f", "3233ea7", "97d6920"],
+    "source_commits": ["98cebac", "2f1e4e7", "c83bfb0", "91bc1e3", "264b974", "d83c337", "edf016c", "93ac700", "d9dddd0", "e90eabd", "f010b6c", "21317de", "5be453f", "3233ea7", "97d6920", "1d6b917"],
     "add_only": True,
 }
 NOTES = ("Every check: ./check <id> [--tier quick|thorough] [--replay FILE]; honours VERIF_SEED and VERIF_TIER. "
